@@ -53,7 +53,8 @@ def run_bane(ctx, path, step, box, cores, nslice, mask=True, plan=None, save=Non
     env = dict(os.environ)
     env['AEGEAN_VERIF'] = '1'
     env['AEGEAN_VERIF_BANE_PLAN'] = json.dumps(plan)
-    args = {'path': path, 'step': [step, step], 'box': [box, box], 'cores': cores, 'nslice': nslice, 'mask': mask, 'save': save}
+    box2 = list(box) if isinstance(box, (tuple, list)) else [box, box]
+    args = {'path': path, 'step': [step, step], 'box': box2, 'cores': cores, 'nslice': nslice, 'mask': mask, 'save': save}
     runner = os.path.join(vlib.VERIF, 'tools', 'harness', 'bane_runner.py')
     try:
         r = subprocess.run(['timeout', '-s', 'KILL', str(WATCHDOG), vlib.PY, runner, json.dumps(args)], env=env,
@@ -287,7 +288,7 @@ def run(ctx, model_ok=True):
                        f'{nb} traces rejected')
             ctx.traces = len(tr_meta)
     # ---- stripes vs single stripe on a noise image (validated, not proved)
-    if not ctx.failures:
+    if True:
         r1, _ = run_bane(ctx, path, step, box, 1, 1, True, {}, save=os.path.join(ctx.work, 'one'))
         r3, _ = run_bane(ctx, path, step, box, 3, 3, True, {}, save=os.path.join(ctx.work, 'three'))
         if r1 and r3 and not r1['raised'] and not r3['raised']:
@@ -299,6 +300,31 @@ def run(ctx, model_ok=True):
             ok = db <= 0.5 * noise and ds <= 0.5 * noise
             ctx.oblige('changing the number of stripes changes the maps by less than half the local noise (validated on one noise image)',
                        ok, f'dbkg {db} drms {ds} noise {noise}')
+            if not ok:
+                ctx.counterexample = ctx.counterexample or {'kind': 'stripes', 'rows': rows, 'cols': cols, 'step': step, 'box': box,
+                                                            'what': f'1 vs 3 stripes: max |dbkg| {db}, max |drms| {ds}, median rms {noise}'}
+        # the same with a NON-SQUARE box (more rows than columns) on a sloping background: the rows a stripe reads beyond its own
+        # (the halo) must be half a box of ROWS
+        rs = np.random.RandomState(11)
+        rr, cc = 72, 24
+        ramp = (rs.normal(0.0, 1.0, size=(rr, cc)) + 0.1 * np.arange(rr)[:, None]).astype(np.float32)
+        p2 = os.path.join(ctx.work, 'ramp.fits')
+        write_image(p2, ramp, make_header((rr, cc)))
+        q1, _ = run_bane(ctx, p2, 4, (24, 8), 1, 1, True, {}, save=os.path.join(ctx.work, 'r1'))
+        q3, _ = run_bane(ctx, p2, 4, (24, 8), 3, 3, True, {}, save=os.path.join(ctx.work, 'r3'))
+        if q1 and q3 and not q1['raised'] and not q3['raised']:
+            b1, b3 = np.load(os.path.join(ctx.work, 'r1_bkg.npy')), np.load(os.path.join(ctx.work, 'r3_bkg.npy'))
+            s1 = np.load(os.path.join(ctx.work, 'r1_rms.npy'))
+            noise = float(np.nanmedian(s1))
+            db = float(np.nanmax(np.abs(b1 - b3)))
+            ok2 = db <= 0.5 * noise
+            ctx.notes.append(f'non-square box (24 rows x 8 cols), sloping background: 1 vs 3 stripes max |dbkg| = {db:.3g}, median rms = {noise:.3g}')
+            ctx.oblige('non-square box on a sloping background: 1 vs 3 stripes differ by less than half the local noise', ok2,
+                       f'dbkg {db} noise {noise}')
+            if not ok2:
+                ctx.counterexample = ctx.counterexample or {'kind': 'stripes', 'rows': rr, 'cols': cc, 'step': 4, 'box': [24, 8],
+                                                            'what': f'1 vs 3 stripes with box (24, 8) on noise + 0.1 sigma/row ramp: max |dbkg| = {db} = '
+                                                                    f'{db / noise:.2f} x local noise'}
 
 
 def search(ctx):
